@@ -82,6 +82,8 @@ def run(ctx):
                 'calls of one per-joint sampler fn(f64,f64)->f64 in random_angles (six, or one inside a loop over the joints)')
     sampler = cands[0][2]
     ctx.fn(sampler)
+    ctx.rule('R18.4', 'constants of the sampler that stand for pi or 2*pi are exact')
+    util.pi_constants(ctx, 'R18.4', [sampler])
     # ---- R18.3 glue
     ret = strip(ra.return_term())
 
